@@ -395,4 +395,11 @@ theorem serial_no_permit_left (plan : List S3V.Serial.Task) (hwf : S3V.Serial.WF
     (S3V.Serial.manager S3V.Serial.Tables.current plan).1.permits = 0 :=
   (S3V.Serial.serial_outcome plan hwf).2.1
 
+/-- **A transfer whose submission failed is announced, whatever its other tasks raised** (D20): see
+`Serial.failed_submission_is_announced` — the waiting loop's `except` clauses and the order record / wait /
+announce are generated from the source -/
+theorem failed_submission_is_announced (stored : List (Option S3V.Serial.Exc)) :
+    S3V.Serial.failurePath S3V.Gen.waitLoopHandlers S3V.Gen.submissionFailurePath stored = (true, none) :=
+  S3V.Serial.failed_submission_is_announced stored
+
 end S3V.C04
